@@ -151,11 +151,15 @@ func c13Run(c *Ctx, idx int) CaseResult {
 		o.Executed = r.Intn(2) == 0
 		p := store.RandPlan(r, o)
 		ops = append(ops, fmt.Sprintf("Create(plan %d, executed=%v, objects=%v)", i, o.Executed, store.Canon(p).Count(nil)))
+		// the model is built from the plan as it is BEFORE the call: a vault may write into the plan it is given
+		// (cosmosdb copies what it reads back), which would hide a lossy reader from a model built afterwards
+		model.Create(p)
 		if err := h.Vault.Create(ctx, p); err != nil {
+			model.Delete(p.ID)
+			delete(model.Deleted, p.ID.String())
 			add("op-error", "Create", "Create failed: %v", err)
 			continue
 		}
-		model.Create(p)
 		ids = append(ids, p.ID)
 		if !compare(p.ID, "after Create") {
 			continue
